@@ -46,8 +46,7 @@ def run_one(case):
                     raise Boom('start')
                 super().start()
 
-            def get_state(self):
-                return self.output
+            # get_state() is the default one: it raises for a block that is not initialised yet
 
             def _restore_state(self, state):
                 if self.fault == 'restore':
@@ -134,6 +133,8 @@ def run_one(case):
             t = bd['t']
             if t == 'probe':
                 kw = {}
+                if bd.get('persistent'):
+                    kw['persistent'] = True
                 if idx == 0:
                     # b0's first output (set in its init_regular, i.e. in the simulation task) is sent as a
                     # 'boom' event to every probe with the fault site 'handler_init'
@@ -461,6 +462,9 @@ def gen_case(rng):
         if t == 'oasync':
             bd['mode'] = rng.choice(['wait', 'cancel', 'start'])
         blocks.append(bd)
+    for bd in blocks:
+        if bd['t'] == 'probe' and rng.random() < 0.4:
+            bd['persistent'] = True
     rng.shuffle(blocks)
     # b0 must be a probe (event destination / input of FuncBlocks)
     k = next(i for i, b in enumerate(blocks) if b['t'] == 'probe')
@@ -528,6 +532,11 @@ DIRECTED = [
         dict(t='mtask')], None, 'running', fault_ms=4),
     _d([dict(t='probe'), dict(t='probe', fault='handler_sim'), dict(t='func'), dict(t='oasync', mode='wait'),
         dict(t='repeat')], 'support_return', 'running', wait_init=True, fault_ms=6),
+    # a persistent block that is still uninitialised when the run is terminated during the async init
+    _d([dict(t='probe'), dict(_AP), dict(t='probe', persistent=True, fault='init_from_value'),
+        dict(t='probe', persistent=True), dict(t='ofunc')], 'shutdown', 'async_init'),
+    _d([dict(t='probe', persistent=True), dict(_AP, stop_ms=3), dict(t='probe', persistent=True),
+        dict(t='mtask')], 'abort', 'async_init'),
     # several blocks whose stop_async never ends: the waits run concurrently, each bounded by its own timeout
     _d([dict(t='probe'), dict(_AP, stop_ms='never', stop_timeout_ms=5), dict(_AP, stop_ms='never', stop_timeout_ms=2),
         dict(_AP, stop_ms='never', stop_timeout_ms=4), dict(t='ofunc')], 'shutdown', 'running'),
